@@ -189,6 +189,10 @@ type cacheDrv struct {
 	feed []feedEntry
 	pool pathPool
 	dead bool // the code under test panicked: locks may still be held, the scenario ends here
+	// every notification handed to the cache in this scenario, with a copy taken before the call: the caller's
+	// notification is left unmodified - also by later calls (the cache may keep the caller's object)
+	given []*pb.Notification
+	copies []*pb.Notification
 }
 
 // onFeed is the SetClient callback: it projects what a consumer of the feed sees
@@ -338,7 +342,14 @@ func (d *cacheDrv) apply(o cacheOp) {
 		}
 		err := d.c.GnmiUpdate(n)
 		e["res"] = resClass(err)
-		e["unmod"] = proto.Equal(before, n)
+		unmod := proto.Equal(before, n)
+		for i := range d.given {
+			unmod = unmod && proto.Equal(d.given[i], d.copies[i])
+		}
+		e["unmod"] = unmod
+		if len(d.given) < 64 {
+			d.given, d.copies = append(d.given, n), append(d.copies, before.(*pb.Notification))
+		}
 	case "Sync":
 		d.c.Sync(o.T)
 		e["t"] = o.T
